@@ -274,7 +274,10 @@ func genValidCases(r *RNG, thorough bool) []string {
 		vb(did, mk(o), o.vmID, "s", A)
 	}
 	// services
-	for _, sv := range [][]string{{"s", "t", "e"}, {"", "t", "e"}, {"s", "", "e"}, {"s", "t", ""}, {" ", "\x00", "\xff"}} {
+	for _, sv := range [][]string{{"s", "t", "e"}, {"", "t", "e"}, {"s", "", "e"}, {"s", "t", ""}, {" ", "\x00", "\xff"},
+		// whitespace-only, one-character and odd endpoints / ids / types (anything non-empty is admissible)
+		{"s", "t", " "}, {"s", "t", "\t"}, {"s", "t", "\n"}, {"s", "t", "  \r\n"}, {"s", "t", ":"}, {"s", "t", "x"}, {"s", "t", "https://example.org/a b"},
+		{"s", "t", strings.Repeat("e", 5000)}, {"\t", "t", "e"}, {"s", " ", "e"}, {"#", "t", "e"}, {"s", "t", "\u00a0"}} {
 		o := std()
 		o.svc = sv
 		vb(did, mk(o), o.vmID, "s", A)
